@@ -70,6 +70,25 @@ def demuxDelAt (n : Nat) (z : Tok α) (k : Nat) (i : DemuxIn α) : List (Tok α)
   let s := (demuxOut n z i).sources.getD k (false, z)
   if s.1 && i.readies.getD k false then [s.2] else []
 
+/-! ### Crossbar(n): the container's Demultiplexer feeding its Multiplexer (`demux.source_k.connect(mux.sink_k)`),
+  each with its own selector.  Defined as the composition of `demuxOut` and `muxOut`; the two selectors travel
+  with the sink-side wires: `data = (payload, demux.sel, mux.sel)`. -/
+
+def crossbarOut (n : Nat) (z : Tok α) (seld selm : Nat) (v : Bool) (t : Tok α) (r : Bool) : Out α :=
+  -- the multiplexer's sink readies depend on its selector and source.ready only
+  let rds := (muxOut n z { sel := selm, sinks := [], ready := r }).readies
+  let d := demuxOut n z { sel := seld, valid := v, tok := t, readies := rds }
+  let m := muxOut n z { sel := selm, sinks := d.sources, ready := r }
+  { ready := d.ready, valid := m.valid, tok := m.tok }
+
+def crossbar (n : Nat) (z : α) : Elem (α × Nat × Nat) α Unit where
+  init := ()
+  fwd _ v t :=
+    let o := crossbarOut n ⟨z, false, false⟩ t.data.2.1 t.data.2.2 v ⟨t.data.1, t.first, t.last⟩ false
+    (o.valid, o.tok)
+  bwd _ v t r := (crossbarOut n ⟨z, false, false⟩ t.data.2.1 t.data.2.2 v ⟨t.data.1, t.first, t.last⟩ r).ready
+  next _ _ _ _ := ()
+
 /-! ### Gate: the `enable` input travels with the sink-side wires (`data = (payload, enable)`) -/
 
 /-- `Gate(layout, sink_ready_when_disabled = srd)`. -/
